@@ -3011,25 +3011,35 @@ func (vc *ValCount) add(other ValCount) ValCount {
 	}
 }
 
-// smaller returns the smaller of the two ValCounts.
+// smaller returns the smaller of the two ValCounts. If both hold the same
+// value, the counts are added.
 func (vc *ValCount) smaller(other ValCount) ValCount {
 	if vc.Count == 0 || (other.Val < vc.Val && other.Count > 0) {
 		return other
 	}
+	count := vc.Count
+	if other.Val == vc.Val && other.Count > 0 {
+		count += other.Count
+	}
 	return ValCount{
 		Val:   vc.Val,
-		Count: vc.Count,
+		Count: count,
 	}
 }
 
-// larger returns the larger of the two ValCounts.
+// larger returns the larger of the two ValCounts. If both hold the same
+// value, the counts are added.
 func (vc *ValCount) larger(other ValCount) ValCount {
 	if vc.Count == 0 || (other.Val > vc.Val && other.Count > 0) {
 		return other
 	}
+	count := vc.Count
+	if other.Val == vc.Val && other.Count > 0 {
+		count += other.Count
+	}
 	return ValCount{
 		Val:   vc.Val,
-		Count: vc.Count,
+		Count: count,
 	}
 }
 
